@@ -977,12 +977,16 @@ class Variable(CanBehaveLikeAVariable[T]):
         self._eval_parent_ = parent
         sources = sources or {}
         if self._id_ in sources:
+            # The truth value of the bound value only matters when the variable itself is used as a condition, otherwise
+            # (e.g., as an operand of a comparison or as a selected variable) a falsy value is a value like any other.
+            is_false = False
             if (
-                isinstance(self._parent_, LogicalBinaryOperator)
+                isinstance(self._parent_, LogicalOperator)
                 or self is self._conditions_root_
             ):
-                self._is_false_ = not bool(sources[self._id_])
-            yield OperationResult(sources, not bool(sources[self._id_]), self)
+                is_false = not bool(sources[self._id_])
+                self._is_false_ = is_false
+            yield OperationResult(sources, is_false, self)
         elif self._domain_:
             for v in self._domain_:
                 yield OperationResult(
